@@ -323,6 +323,19 @@ def drv_aspect(tier, rng):
                                     'randomSeed': rng.randint(0, 50)}}     # (the recorded seed is a number of the unit too)
         groups.append([base_case(req, refmax=4, unit=FU, pin=True)])
     # all four alternatives fail the first check: the ranking is the reverse of the walk order
+    # parameters outside the documented domain are rejected whatever the size of the decision (one alternative too)
+    for t in range(12 if tier == 'quick' else 120):
+        n = rng.choice([1, 1, 2, 3])
+        m = rng.randint(1, 2)
+        req = heur_req(rng, 'aspectEliminationHeuristic', n, m, [0, 1, 2, 4], rng.choice([0, 1]))
+        params = {'coefficient': 2 * Q, 'minValue': Q, 'maxValue': 3 * Q}
+        bad = rng.choice([('coefficient', 0), ('coefficient', 6 * Q), ('coefficient', -Q), ('minValue', -Q), ('maxValue', 5 * Q), ('minValue', 5 * Q)])
+        params[bad[0]] = bad[1]
+        mp = {'function': rng.choice(['idealMultipliedCoefficient', 'idealAdditiveCoefficient']), 'params': params, 'randomSeed': 3}
+        if 'aspectEliminationHeuristic' == 'aspectEliminationHeuristic':
+            mp['weights'] = {CRIT[j]: UNIT * (j + 1) for j in range(m)}
+        req['methodParameters'] = mp
+        groups.append([base_case(req, expect='reject', failprop='C14', refmax=4)])
     groups.append(shuffle_group('aspectEliminationHeuristic', {'function': 'thresholds', 'params': {'thresholds': [{'c1': 2 * UNIT}]}, 'weights': {'c1': UNIT}}, 'C12'))
     groups.append(shuffle_group('aspectEliminationHeuristic', {'function': 'thresholds', 'params': {'thresholds': [{'c1': 2 * UNIT}]}, 'weights': {'c1': UNIT}}, 'C12', bias='criteriaOmission'))
     return groups
@@ -375,6 +388,19 @@ def drv_satisfaction(tier, rng):
         req['methodParameters'] = mp
         groups.append([base_case(req, refmax=5)])
     # all four alternatives meet the first level: the ranking is the search order
+    # parameters outside the documented domain are rejected whatever the size of the decision (one alternative too)
+    for t in range(12 if tier == 'quick' else 120):
+        n = rng.choice([1, 1, 2, 3])
+        m = rng.randint(1, 2)
+        req = heur_req(rng, 'satisfactionHeuristic', n, m, [0, 1, 2, 4], rng.choice([0, 1]))
+        params = {'coefficient': 2 * Q, 'minValue': Q, 'maxValue': 3 * Q}
+        bad = rng.choice([('coefficient', 0), ('coefficient', 6 * Q), ('coefficient', -Q), ('minValue', -Q), ('maxValue', 5 * Q), ('minValue', 5 * Q)])
+        params[bad[0]] = bad[1]
+        mp = {'function': rng.choice(['idealMultipliedCoefficient', 'idealSubtractiveCoefficient']), 'params': params, 'randomSeed': 3}
+        if 'satisfactionHeuristic' == 'aspectEliminationHeuristic':
+            mp['weights'] = {CRIT[j]: UNIT * (j + 1) for j in range(m)}
+        req['methodParameters'] = mp
+        groups.append([base_case(req, expect='reject', failprop='C14', refmax=4)])
     groups.append(shuffle_group('satisfactionHeuristic', {'function': 'thresholds', 'params': {'thresholds': [{'c1': 0}]}}, 'C13'))
     groups.append(shuffle_group('satisfactionHeuristic', {'function': 'thresholds', 'params': {'thresholds': [{'c1': 0}]}}, 'C13', bias='criteriaOmission'))
     return groups
@@ -434,6 +460,20 @@ def scaled_pow2(req, e2):
     return r
 
 
+def vscaled(req, e2):
+    """every criterion value and every constant threshold times 2^e2: differences, thresholds and hence all partial
+    indices keep their ratios, so every index is unchanged (ELECTRE III with constant thresholds has no absolute scale)"""
+    r = copy.deepcopy(req)
+    for a in r['knownAlternatives']:
+        for c in a['criteria']:
+            a['criteria'][c] = {'n': a['criteria'][c], 'd': UNIT, 'e': e2}
+    for c, e in r['methodParameters']['electreCriteria'].items():
+        for t in ('q', 'p', 'v'):
+            if t in e:
+                e[t]['b'] = {'n': e[t]['b'], 'd': UNIT, 'e': e2}
+    return r
+
+
 def drv_electre(tier, rng):
     groups = []
     N = 250 if tier == 'quick' else 5000
@@ -454,6 +494,9 @@ def drv_electre(tier, rng):
         variants = perm_twins(rng, req, 'C06', 1) + [scaled(req, 2, 1), scaled(req, 1, 4), scaled_pow2(req, rng.choice([-30, -24, -20, 10]))]
         for r in variants:
             g.append(base_case(r, sa=f[2], sb=f[3], failprop='C05', group={'id': 'x', 'rel': 'perm', 'p': 'C06'}))
+        # the same instance on another scale of the criteria (values and thresholds x 2^-30 / x 2^20): relation only
+        g.append(base_case(vscaled(req, rng.choice([-30, -30, 20])), sa=f[2], sb=f[3], failprop='C05', methodref=False,
+                           group={'id': 'x', 'rel': 'perm', 'p': 'C05'}))
         groups.append(g)
     return groups
 
